@@ -188,6 +188,19 @@ def verify_rt(contract, cfg, both=False):
             res['verdicts'].append(d)
     except OutOfSubset as e:
         res['error'] = ('out-of-subset', str(e))
+        # the function left the verifier's subset: a BOUNDED stand-in (the contract evaluated natively on all small
+        # inputs) may still refute it with a concrete input; it never counts as proved
+        b = getattr(contract, 'bounded', None)
+        if b is not None:
+            try:
+                bad, tried, bound = b(cx)
+            except Exception as e2:
+                bad, tried, bound = [], 0, f'bounded stand-in crashed: {type(e2).__name__}: {e2}'
+            res['bounded'] = {'tried': tried, 'bound': bound, 'violations': len(bad)}
+            if bad:
+                res['verdicts'].append({'obligation': 'bounded:contract-on-all-small-inputs', 'kind': 'post', 'verdict': 'sat',
+                                        'solver': 'native-enumeration', 'time_s': 0.0, 'path': None, 'model': None,
+                                        'replay': {'reproduced': True, 'violated': bad[:5], 'bound': bound, 'tried': tried}})
     res['wall'] = round(time.time() - t0, 3)
     return res
 
